@@ -156,6 +156,109 @@ def tls_exchange(p_tls: bool, c_cont: bool, c_force: bool, p_shared: bool, c_sha
         return _exchange(*cfg)
 
 
+def _foreign_shared_server(p_alt, c_force):
+    """A TLS-configured provider that the application starts on a shared HTTP server WITHOUT a TLS context: whatever happens
+    to connections, the provider must not ADVERTISE plaintext addresses; and a TLS-enforcing consumer pointed at it must not
+    open a plaintext connection."""
+    orc = Oracle()
+    stage = 'setup'
+    try:
+        Net.reset(handshake_fails=False)
+        pc = lk.mk_container(True)
+        dev = lk.mk_provider(pc, p_alt)
+        lk.start_provider(dev, lk.mk_shared_server(None))
+        p_port = dev._http_server.server_port
+        xaddrs = dev.get_xaddrs()
+        for x in xaddrs:
+            orc.check(x.startswith('https://'), 'plaintext_url_advertised:xaddrs')
+        for u in dev.base_urls:
+            orc.check(u.scheme == 'https', 'plaintext_url_advertised:base_urls')
+        stage = 'consumer'
+        cc = lk.mk_container(True)
+        cons = lk.mk_consumer(xaddrs[0].replace('http://', 'https://'), cc, c_force, False)
+        try:
+            lk.start_consumer(cons, None)
+        except (ssl.SSLError, ConnectionError, OSError, lk.http.client.HTTPException):
+            pass
+        for scheme, where in _urls('provider', p_port):
+            orc.check(scheme == 'https', 'plaintext_url_advertised:' + where)
+        if c_force:
+            for c in _conns('consumer'):
+                orc.check(c['tls'] and c['context'] is cc.client_context, 'client_without_tls_context:consumer')
+        try:
+            cons.stop_all(unsubscribe=False)
+            dev.stop_all(send_subscription_end=False)
+        except Exception:  # noqa: BLE001, S110
+            pass
+    except Exception as ex:  # noqa: BLE001
+        return exc_result(orc, ex, stage)
+    return orc.result()
+
+
+def foreign_shared_server(p_alt: bool, c_force: bool) -> str:
+    """
+    post: __return__ == 'ok'
+    """
+    cfg = (bool(p_alt), bool(c_force))
+    with untraced():
+        return _foreign_shared_server(*cfg)
+
+
+def _enforced_restart(p_tls, how, c_alt, n_cycles):
+    """A consumer with TLS enforced goes through start / stop (or restart) cycles against a provider that does (p_tls) or
+    does not speak TLS: in no cycle may it construct a plaintext connection or advertise an http:// address."""
+    orc = Oracle()
+    stage = 'setup'
+    try:
+        Net.reset(handshake_fails=False)
+        pc = lk.mk_container(True) if p_tls else None
+        cc = lk.mk_container(True)
+        dev = lk.mk_provider(pc, False)
+        lk.start_provider(dev, None)
+        xaddrs = dev.get_xaddrs()
+        cons = lk.mk_consumer(xaddrs[0], cc, True, c_alt)
+        for cycle in range(n_cycles):
+            stage = f'cycle{cycle}:start'
+            started = True
+            try:
+                lk.start_consumer(cons, None)
+            except (ssl.SSLError, ConnectionError, OSError, lk.http.client.HTTPException):
+                started = False
+            orc.check(started == p_tls, 'connected_although_tls_impossible' if started else 'harness:tls-provider-not-reached')
+            for c in _conns('consumer'):
+                orc.check(c['tls'] and c['context'] is cc.client_context, 'client_without_tls_context:consumer')
+            c_port = lk.own_server_port(cons)
+            if c_port is not None:
+                for scheme, where in _urls('consumer', c_port):
+                    orc.check(scheme == 'https', 'plaintext_url_advertised:' + where)
+            stage = f'cycle{cycle}:stop'
+            try:
+                if how == 0:
+                    cons.stop_all(unsubscribe=started)
+                else:
+                    cons.stop_all(unsubscribe=False)
+            except (ssl.SSLError, ConnectionError, OSError, lk.http.client.HTTPException):
+                pass
+        try:
+            dev.stop_all(send_subscription_end=False)
+        except Exception:  # noqa: BLE001, S110
+            pass
+    except Exception as ex:  # noqa: BLE001
+        return exc_result(orc, ex, stage)
+    return orc.result()
+
+
+def enforced_restart(p_tls: bool, how: int, c_alt: bool, n_cycles: int) -> str:
+    """
+    pre: 0 <= how <= 1
+    pre: 2 <= n_cycles <= 3
+    post: __return__ == 'ok'
+    """
+    cfg = (bool(p_tls), 0 if how == 0 else 1, bool(c_alt), 2 if n_cycles == 2 else 3)
+    with untraced():
+        return _enforced_restart(*cfg)
+
+
 def _contexts(ca_file, via_folder, cyphers):
     orc = Oracle()
     try:
